@@ -7,6 +7,7 @@
    is relayed at most once. *)
 From Coq Require Import NArith List.
 From SkV Require Import NodeModel NodeProofs.
+From SkV Require Bytes Codec ChainState Pow Validate VerdictLink.
 Import ListNotations.
 
 Theorem C09_only_valid_enter : forall skip tx_valid_at s b v irt0 s' o i,
@@ -45,6 +46,15 @@ Theorem C09_relay_at_most_once : forall skip tx_valid_at tx_conflict,
   Quiescent s /\ PoolInv tx_valid_at tx_conflict s /\ NoDup (block_ids s) /\ incl (block_ids s0) (block_ids s).
 Proof. exact relay_at_most_once. Qed.
 
+(* what "the three verdicts are positive" means in terms of the consensus model: full validation succeeds *)
+Theorem C09_verdicts_are_full_validation : forall sha scrypt blake verify P s b now,
+  (bv_itself (VerdictLink.verdicts sha scrypt blake verify P s b now) = true /\
+   bv_apply (VerdictLink.verdicts sha scrypt blake verify P s b now) = true /\
+   bv_instate (VerdictLink.verdicts sha scrypt blake verify P s b now) = true)
+  <-> exists s', Validate.add_block sha scrypt blake verify P s b now = Validate.Ok s'.
+Proof. exact VerdictLink.verdicts_full_validation. Qed.
+
+Print Assumptions C09_verdicts_are_full_validation.
 Print Assumptions C09_only_valid_enter.
 Print Assumptions C09_accepted_stored_and_relayed_once.
 Print Assumptions C09_duplicate_noop.
